@@ -25,10 +25,10 @@ class C16(Prop):
     thorough_runs = 400000
 
     def families(self, tier):
-        return [("pad", 2), ("length-past-parent", 4), ("follower", 4), ("parent-shortened", 3), ("inner-junk", 2)]
+        return [("pad", 2), ("length-past-parent", 4), ("follower", 4), ("parent-shortened", 3), ("inner-junk", 2), ("int-padded", 2)]
 
     def expected_counters(self, tier):
-        return ["fault.outer.pad", "fault.inner.len_past_parent", "probe.pad-rejected", "probe.past-parent-rejected", "probe.follower-compared", "probe.follower-real", "probe.junk-after-value", "probe.tampered.value", "probe.tampered.name", "probe.tampered.varbind", "probe.tampered.varbinds", "probe.tampered.pdu", "probe.tampered.scoped-pdu", "probe.tampered.usm", "probe.tampered.global", "probe.parent-shortened", "probe.inner-junk-compared"]
+        return ["fault.outer.pad", "fault.inner.len_past_parent", "probe.pad-rejected", "probe.past-parent-rejected", "probe.follower-compared", "probe.follower-real", "probe.junk-after-value", "probe.tampered.value", "probe.tampered.name", "probe.tampered.varbind", "probe.tampered.varbinds", "probe.tampered.pdu", "probe.tampered.scoped-pdu", "probe.tampered.usm", "probe.tampered.global", "probe.parent-shortened", "probe.inner-junk-compared", "probe.int-padded-compared"]
 
     def gen(self, rng, family, tier):
         flavour = rng.choice(["sync", "async"])
@@ -64,6 +64,18 @@ class C16(Prop):
                 vbs = [list(x) for x in before] + [[name_k, val_k, k_opts]] + after
                 scripts["%d:1" % opid] = {"replies": [{"k": "custom", "pdu": "response", "varbinds": vbs}], "k_index": len(before)}
             return {"flavour": flavour, "agent": agent, "sessions": [sess], "ops": ops, "scripts": scripts, "latency_ns": 1001, "fam": family, "k": [name_k, val_k]}
+        if family == "int-padded":
+            # the same reply clean and with one header INTEGER carrying redundant leading octets
+            names = [gen.oid_text(gen.oid(rng))]
+            vbs = [[names[0], gen.value(rng, gen.SAFE_KINDS)]]
+            where = rng.choice(["request-id", "request-id", "error-status", "error-index", "version", "msg-id", "max-size", "sec-model", "usm-boots", "usm-time"])
+            for opid in (1, 2):
+                ops.append({"id": opid, "s": 0, "op": "get_many", "oids": names})
+                item = {"k": "custom", "pdu": "response", "varbinds": vbs}
+                if opid == 2:
+                    item["inner"] = [{"op": "int_pad", "name": where, "k": rng.choice([1, 1, 2, 3, 4])}]
+                scripts["%d:1" % opid] = {"replies": [item]}
+            return {"flavour": flavour, "agent": agent, "sessions": [sess], "ops": ops, "scripts": scripts, "latency_ns": 1001, "fam": family, "where": where}
         if family == "inner-junk":
             # the same reply twice, with different octets inserted after one inner element
             names = [gen.oid_text(gen.oid(rng)) for _ in range(rng.randint(1, 2))]
@@ -92,7 +104,7 @@ class C16(Prop):
                 # past the enclosing element
                 item["inner"] = [{"op": "len", "name": rng.choice(["message", "pdu", "pdu", "varbinds", "varbind", "scoped-pdu", "usm", "sec-params", "global"]), "delta": -rng.choice([1, 1, 2])}]
             else:
-                item["inner"] = [{"op": "len_past_parent", "node": rng.randrange(0, 64), "delta": rng.choice([1, 1, 2, 5, 100, 1000])}]
+                item["inner"] = [{"op": "len_past_parent", "node": rng.randrange(0, 64), "delta": rng.choice([1, 1, 2, 5, 100, 1000, 2**16, 2**32, 2**32 + 1, 2**40, 2**56])}]
             scripts["%d:1" % opid] = {"replies": [item, {"k": "genuine", "delay_ns": 50_001}] if rng.random() < 0.3 else [item]}
         return {"flavour": flavour, "agent": agent, "sessions": [sess], "ops": ops, "scripts": scripts, "latency_ns": 1001, "fam": family}
 
@@ -135,6 +147,22 @@ class C16(Prop):
                 elif g == "<absent>" or not snmp.same_value(g, want):
                     out.append(V("C16.value-depends-on-followers", "%s encoded as %r delivered as %r with one set of following bytes (values seen: %r)" % (name_k, val_k, g, got), kind=val_k[0]))
                     break
+            run.c16 = shapes
+            return out
+        if fam == "int-padded":
+            outs = []
+            padded = False
+            for res in run.results:
+                labs = [run.dgrams[d]["label"] for ex in run.exchanges(res) for d in ex["rx"]]
+                padded = padded or any(l.get("why") == "int-padded" for l in labs)
+                outs.append(res.get("ok") if "ok" in res else ("exc", res["exc"]["exc"]))
+            if len(outs) == 2 and padded:
+                run.sim.count("probe.int-padded-compared")
+                shapes.append(("int-padded", run.plan["where"]))
+                # the padded INTEGER denotes the same value: same outcome, or refused as non-minimal -
+                # never a different reading (which would show as a dropped reply or another value)
+                if outs[1] != outs[0] and outs[1] != ("exc", "PySnmpDecodeError"):
+                    out.append(V("C16.padded-integer-read-differently", "reply with a zero-padded %s: clean outcome %r, padded outcome %r" % (run.plan["where"], outs[0], outs[1]), where=run.plan["where"]))
             run.c16 = shapes
             return out
         if fam == "inner-junk":
